@@ -1,8 +1,11 @@
 import Driver.Reach
+import Driver.Conn
 
 def main (args : List String) : IO UInt32 := do
   match args with
   | "reach" :: rest => Driver.reachMain rest
+  | ["conn"] => Driver.Conn.connMain
+  | ["connpred"] => Driver.Conn.predMain
   | ["reachsum"] => do Driver.reachSummary; return 0
   | _ =>
     IO.eprintln "usage: shipdrv <engine> [args]"
